@@ -6,17 +6,12 @@ import F1Verif.Generated.Facts
 import F1Verif.Expected
 namespace F1.Props.FactsC15
 
+-- (file_validateCommonFields, file_validateCommonFieldsOfStage, file_validateConstantStage, file_validateRampStage, file_validateStagedStage, file_validateGaussianStage, file_validateUsersStage: re-proved semantically on the regenerated MiniGo programs, see Props/Refine*.lean)
+
 theorem fact_file_runStage : F1.Generated.skel_file_runStage = F1.Expected.skel_file_runStage := by rfl
 theorem fact_file_newStagesWorker : F1.Generated.skel_file_newStagesWorker = F1.Expected.skel_file_newStagesWorker := by rfl
 theorem fact_file_ParseConfigFile : F1.Generated.skel_file_ParseConfigFile = F1.Expected.skel_file_ParseConfigFile := by rfl
 theorem fact_file_parseStage : F1.Generated.skel_file_parseStage = F1.Expected.skel_file_parseStage := by rfl
-theorem fact_file_validateCommonFields : F1.Generated.skel_file_validateCommonFields = F1.Expected.skel_file_validateCommonFields := by rfl
-theorem fact_file_validateCommonFieldsOfStage : F1.Generated.skel_file_validateCommonFieldsOfStage = F1.Expected.skel_file_validateCommonFieldsOfStage := by rfl
-theorem fact_file_validateConstantStage : F1.Generated.skel_file_validateConstantStage = F1.Expected.skel_file_validateConstantStage := by rfl
-theorem fact_file_validateRampStage : F1.Generated.skel_file_validateRampStage = F1.Expected.skel_file_validateRampStage := by rfl
-theorem fact_file_validateStagedStage : F1.Generated.skel_file_validateStagedStage = F1.Expected.skel_file_validateStagedStage := by rfl
-theorem fact_file_validateGaussianStage : F1.Generated.skel_file_validateGaussianStage = F1.Expected.skel_file_validateGaussianStage := by rfl
-theorem fact_file_validateUsersStage : F1.Generated.skel_file_validateUsersStage = F1.Expected.skel_file_validateUsersStage := by rfl
 theorem fact_file_Builder : F1.Generated.skel_file_Builder = F1.Expected.skel_file_Builder := by rfl
 theorem fact_file_setEnvs : F1.Generated.skel_file_setEnvs = F1.Expected.skel_file_setEnvs := by rfl
 theorem fact_file_unsetEnvs : F1.Generated.skel_file_unsetEnvs = F1.Expected.skel_file_unsetEnvs := by rfl
